@@ -53,6 +53,7 @@ impl Gen {
             self.evs.insert(ev, EvMeta { kind: "commit", author: m, epoch_hint: self.client_epoch[m] });
             return format!("PR ADV {m} rm {victim} {ev} {}", self.ts());
         }
+        if w.reopen.is_some() && k >= 96 { return format!("PR RESTART {m}"); }
         if k < 28 {
             let ev = self.next_ev; self.next_ev += 1;
             self.evs.insert(ev, EvMeta { kind: "bad", author: 99, epoch_hint: 0 });
@@ -94,6 +95,9 @@ struct Truth {
     rollback_then_refused: bool,
     stale_proposal: bool,
     sweeps: bool,
+    took_effect: BTreeSet<(usize, u64)>,   // (client, event) pairs whose processing reported success
+    restarted: BTreeSet<usize>,            // clients restarted so far
+    late_competitor_after_restart: bool,   // a restarted client was offered a commit of an epoch it had already left
     own_echo_other_pending: bool,          // a client was offered one of its own commits while a DIFFERENT commit of its own was pending
     sendx: Vec<(usize, u64, u64)>,         // (malicious sender, its message number, victim message number)                          // a commit swept other members' pending proposals                  // a proposal was offered to a client that had already left its epoch
     leave_to_admin_with_pending: bool,          // application messages first offered when the receiver's epoch differed from the sender's
@@ -105,13 +109,14 @@ fn strip(fp: &str) -> String {
     fp.split(' ').filter(|t| !(t.starts_with("res=") || t.starts_with("dd=") || t.starts_with("rb="))).collect::<Vec<_>>().join(" ")
 }
 
-fn run_world<S: MdkStorageProvider, F: Fn(usize) -> S>(run: &mut Run, lines_in: Option<Vec<String>>, r: &mut Rng, nhist: u64, steps: u64, mk: F, backend: &str) {
+fn run_world<S: MdkStorageProvider, F: Fn(usize) -> S>(run: &mut Run, lines_in: Option<Vec<String>>, r: &mut Rng, nhist: u64, steps: u64, mk: F, backend: &str, reopen_factory: Option<Box<dyn Fn(u64) -> Box<dyn Fn(usize) -> S>>>, world_no: &std::cell::Cell<u64>) {
     let mut world: Option<World<S>> = None;
     let mut push = |run: &mut Run, class: &str, nontriv: bool, line: String, res: String| run.case(class, nontriv, line, res);
     if let Some(lines) = lines_in {
         for l in lines {
             let t: Vec<&str> = l.split(' ').collect();
-            if t[1] == "RESET" { world = Some(World::new(t[2].parse().unwrap(), t[3].parse().unwrap(), t[4].parse().unwrap(), &mk)); push(run, "RESET", false, l.clone(), "RESET".into()); continue; }
+            if t[1] == "RESET" { world_no.set(world_no.get() + 1); world = Some(World::new(t[2].parse().unwrap(), t[3].parse().unwrap(), t[4].parse().unwrap(), &mk));
+                if let Some(f) = reopen_factory.as_ref() { let id = world_no.get(); world.as_mut().unwrap().reopen = Some(f(id.wrapping_sub(1000))); } push(run, "RESET", false, l.clone(), "RESET".into()); continue; }
             let (line, fp) = world.as_mut().unwrap().exec(&l);
             push(run, "replay", true, line, fp);
         }
@@ -128,6 +133,7 @@ fn run_world<S: MdkStorageProvider, F: Fn(usize) -> S>(run: &mut Run, lines_in: 
             if t[1] == "RESET" {
                 flush(run, &mut cur);
                 let (n, mask, ret): (usize, u64, usize) = (t[2].parse().unwrap(), t[3].parse().unwrap(), t[4].parse().unwrap());
+                world_no.set(world_no.get() + 1);
                 let w: World<S> = World::new(n, mask, ret, &mk);
                 run.case("RESET", false, l.to_string(), "RESET".into());
                 cur = Some((w, vec![l.to_string()], Truth { retention: ret as u64, visited: vec![BTreeSet::from([0u64]); n], offered: vec![BTreeSet::new(); n], ..Default::default() }, BTreeSet::new()));
@@ -143,12 +149,14 @@ fn run_world<S: MdkStorageProvider, F: Fn(usize) -> S>(run: &mut Run, lines_in: 
         flush(run, &mut cur);
     }
     for h in 0..nhist {
+        world_no.set(1000 + h);
         let n = 3 + r.below(2) as usize;
         let admin_mask = 1 | (r.below(1 << n) & !1) ;
         let retention = *r.pick(&[5usize, 5, 5, 5, 5, 2, 1, 0]);
         let mut g = Gen { r: r.fork(), n, admin_mask, next_ev: 0, next_msg: 1, evs: BTreeMap::new(),
                           regime_causal: h % 3 != 2, immediate: h % 4 == 3, client_epoch: vec![1; n], delivered: BTreeSet::new(), left: None, adv: 0 };
         let mut w: World<S> = World::new(n, admin_mask, retention, &mk);
+        if let Some(f) = reopen_factory.as_ref() { w.reopen = Some(f(h)); }
         let reset = format!("PR RESET {n} {admin_mask} {retention}");
         let mut seq: Vec<String> = vec![reset.clone()];
         push(run, "RESET", false, reset, "RESET".into());
@@ -184,10 +192,12 @@ fn step<S: MdkStorageProvider>(w: &mut World<S>, l: &str, truth: &mut Truth, run
             if info.kind == "commit" && w.mls_epoch(m) > info.epoch + truth.retention { truth.beyond_retention = true; }
             if info.kind == "app" && w.mls_epoch(m) != info.epoch { truth.late.insert((m, ev)); }
             if info.kind == "prop" && w.mls_epoch(m) > info.epoch { truth.stale_proposal = true; }
+            if info.kind == "commit" && truth.restarted.contains(&m) && w.mls_epoch(m) > info.epoch { truth.late_competitor_after_restart = true; }
             if info.kind == "commit" && info.author == m && info.epoch == w.mls_epoch(m) { if let Some(p) = w.pending_of(m) { if p != ev { truth.own_echo_other_pending = true; } } }
         }
     }
     if t[1] == "MERGE" { truth.merges.push((m, t[3].parse().unwrap())); }
+    let before_restart = if t[1] == "RESTART" { Some(strip(&w.fingerprint(m, "-", None, None))) } else { None };
     if t[1] == "SEND" && t.len() > 6 { truth.sendx.push((m, t[5].parse().unwrap(), t[6].parse().unwrap())); }
     let members_before = if t[1] == "DELIVER" { w.members_of(m) } else { vec![] };
     let name_before = if t[1] == "DELIVER" { w.clients[m].mdk.get_group(&w.gid).ok().flatten().map(|g| g.name).unwrap_or_default() } else { String::new() };
@@ -196,6 +206,11 @@ fn step<S: MdkStorageProvider>(w: &mut World<S>, l: &str, truth: &mut Truth, run
         && w.admin_mask & (1 << m) != 0 && w.pending_of(m).is_some();
     let (line, fp) = w.exec(l);
     if t[1] == "DELIVER" { truth.offered[m].insert(t[3].parse().unwrap()); }
+    if let Some(b) = before_restart { if fp != "skip" {
+        truth.restarted.insert(m);
+        // C11: closing and reopening changes nothing observable
+        if strip(&fp) != b { run.oracle_fail("C11", "", format!("[{backend}] restart of member {m} changed its observable state: {b} -> {}", strip(&fp)), seq.join(" || ") + " || " + &line); }
+    } }
     if t[1] == "DELIVER" && fp != "skip" {
         let ev: u64 = t[3].parse().unwrap();
         let info = w.events.get(&ev).cloned();
@@ -236,7 +251,25 @@ fn step<S: MdkStorageProvider>(w: &mut World<S>, l: &str, truth: &mut Truth, run
         let kind = t[3];
         run.oracle_fail("C05", "operation-commits-others-pending-proposals", format!("[{backend}] member {m}'s own {} operation also commits roster changes proposed by others ({})", if kind == "su" { "self-update" } else { "group-data" }, line.split(" | ").nth(1).unwrap_or("")), seq.join(" || ") + " || " + &line);
     }
-    if let Some(st) = fp.split(" st=").nth(1).and_then(|x| x.split(' ').next()).and_then(|x| x.parse::<u64>().ok()) { truth.visited[m].insert(st); }
+    if let Some(st) = fp.split(" st=").nth(1).and_then(|x| x.split(' ').next()).and_then(|x| x.parse::<u64>().ok()) {
+        truth.visited[m].insert(st);
+        // an own commit reported as applied that left the client in ANOTHER commit's state: the echo merged a different
+        // pending commit (possibly one that a rollback had just restored together with the snapshot)
+        if t[1] == "DELIVER" && fp.starts_with("res=Commit") {
+            let ev: u64 = t[3].parse().unwrap();
+            if w.events.get(&ev).map(|i| i.kind == "commit" && i.author == m && st != ev + 1).unwrap_or(false) { truth.own_echo_other_pending = true; }
+        }
+    }
+    // C07: re-delivering an event that has already taken effect here changes nothing observable
+    if let Some(b) = &before {
+        let ev: u64 = t[3].parse().unwrap();
+        if truth.took_effect.contains(&(m, ev)) && fp != "skip" && strip(&fp) != *b {
+            let is_prop = w.events.get(&ev).map(|i| i.kind == "prop").unwrap_or(false);
+            let cls = if is_prop { "late-proposal-treated-as-mip03-candidate" } else if truth.own_echo_other_pending { "own-echo-merges-a-different-pending-commit" } else { "" };
+            run.oracle_fail("C07", cls, format!("[{backend}] re-delivering event {ev}, which had already taken effect at member {m}, changed its state: {b} -> {}", strip(&fp)), seq.join(" || ") + " || " + &line);
+        }
+        if ["res=App", "res=Commit", "res=PendingProposal", "res=AutoCommit"].iter().any(|k| fp.starts_with(k)) { truth.took_effect.insert((m, ev)); }
+    }
     // C06: a refused event has no effect on the observable projection
     if let Some(b) = before {
         let refused = ["res=Err", "res=Unprocessable", "res=PreviouslyFailed", "res=IgnoredProposal"].iter().any(|k| fp.starts_with(k));
@@ -305,7 +338,7 @@ fn oracles<S: MdkStorageProvider>(run: &mut Run, w: &mut World<S>, seq: &mut Vec
     let on_chain = |st: u64| chain.contains(&st);
     let fork_merge = truth.merges.iter().any(|(_, ev)| { let p = w.events.get(ev).map(|i| i.state); w.events.iter().any(|(e2, i2)| e2 != ev && i2.kind == "commit" && Some(i2.state) == p && (live.contains(e2) || *e2 >= 1000)) });
     let ahead_on_chain = truth.ahead.iter().any(|(_, ev)| w.events.get(ev).map(|i| on_chain(i.state)).unwrap_or(false));
-    let class = if truth.own_echo_other_pending { "own-echo-merges-a-different-pending-commit" } else if truth.sweeps { "operation-commits-others-pending-proposals" } else if fork_merge { "merge-pending-commit-takes-no-snapshot" } else if truth.rollback_then_refused { "rolled-back-then-refused" } else if truth.stale_proposal { "late-proposal-treated-as-mip03-candidate" } else if ahead_on_chain { "event-offered-ahead-of-its-predecessor-never-retried" } else { "" };
+    let class = if truth.late_competitor_after_restart { "better-commit-not-adopted-after-restart" } else if truth.own_echo_other_pending { "own-echo-merges-a-different-pending-commit" } else if truth.sweeps { "operation-commits-others-pending-proposals" } else if fork_merge { "merge-pending-commit-takes-no-snapshot" } else if truth.rollback_then_refused { "rolled-back-then-refused" } else if truth.stale_proposal { "late-proposal-treated-as-mip03-candidate" } else if ahead_on_chain { "event-offered-ahead-of-its-predecessor-never-retried" } else { "" };
     let in_scope = !truth.beyond_retention;
     run.count(if !in_scope { "history:fork-deeper-than-retention" } else if class.is_empty() { "history:in-proved-regime" } else { "history:known-class" });
     // C01: all remaining (active) members hold the state MIP-03 selects
@@ -315,6 +348,9 @@ fn oracles<S: MdkStorageProvider>(run: &mut Run, w: &mut World<S>, seq: &mut Vec
     if in_scope && active.iter().any(|&c| states[c] != target) {
         let detail: Vec<String> = (0..n).map(|c| format!("m{c}:st={} ep={}", states[c], w.mls_epoch(c))).collect();
         run.oracle_fail("C01", class, format!("[{backend}] after every event was re-offered until nothing changed, members are not all at the MIP-03-selected state {target} (chain {:?}): {}", chain, detail.join(" ")), seq.join(" || "));
+        if !truth.restarted.is_empty() {
+            run.oracle_fail("C11", if truth.late_competitor_after_restart { "better-commit-not-adopted-after-restart" } else { class }, format!("[{backend}] a run with restarts of {:?} did not converge to the MIP-03-selected state {target}: {}", truth.restarted, detail.join(" ")), seq.join(" || "));
+        }
     }
     // C02: messages created on the winning branch are stored exactly once and valid everywhere; losing-branch messages are not valid
     if in_scope {
@@ -359,11 +395,17 @@ fn main() {
     let nhist: u64 = arg("--hist").and_then(|s| s.parse().ok()).unwrap_or(20);
     let steps: u64 = arg("--steps").and_then(|s| s.parse().ok()).unwrap_or(40);
     if backend == "mem" {
-        run_world(&mut run, lines, &mut r, nhist, steps, |_| MdkMemoryStorage::new(), "memory");
+        let wn = std::cell::Cell::new(0u64);
+        run_world(&mut run, lines, &mut r, nhist, steps, |_| MdkMemoryStorage::new(), "memory", None, &wn);
     } else {
         let dir = tempfile::Builder::new().prefix("proto").tempdir_in("/verif/.cache/tmp").unwrap();
-        let cnt = std::cell::Cell::new(0u64);
-        run_world(&mut run, lines, &mut r, nhist, steps, |i| { cnt.set(cnt.get() + 1); MdkSqliteStorage::new_unencrypted(dir.path().join(format!("c{}_{}.db", cnt.get(), i))).unwrap() }, "sqlite");
+        let base = dir.path().to_path_buf();
+        let wn = std::rc::Rc::new(std::cell::Cell::new(0u64));
+        let (b1, w1) = (base.clone(), wn.clone());
+        let mk = move |i: usize| MdkSqliteStorage::new_unencrypted(b1.join(format!("w{}_c{}.db", w1.get(), i))).unwrap();
+        let b2 = base.clone();
+        let factory: Box<dyn Fn(u64) -> Box<dyn Fn(usize) -> MdkSqliteStorage>> = Box::new(move |h: u64| { let b = b2.clone(); Box::new(move |i: usize| MdkSqliteStorage::new_unencrypted(b.join(format!("w{}_c{}.db", 1000 + h, i))).unwrap()) });
+        run_world(&mut run, lines, &mut r, nhist, steps, mk, "sqlite", Some(factory), &wn);
     }
     run.finish();
     println!("proto_diff[{backend}]: {} lines, {} oracle failures", run.cases.len(), run.oracle.len());
